@@ -127,6 +127,10 @@ const (
 	OpConvert   = "convert"
 	OpRedefine  = "redefine"
 	OpCallRedef = "callredef"
+	// OpLoadInput writes fresh values into the target Func's own Input() set through its
+	// documented accessors (what a BuildFunc wrapper over f.Input() does when it is
+	// called): the set is a value holder of the caller's, not state of the function.
+	OpLoadInput = "loadinput"
 )
 
 // Op is one API operation of a history.
